@@ -11,7 +11,7 @@
    [check_refines] on every generated namespace only. *)
 From Coq Require Import String Ascii List Bool Arith NArith.
 Import ListNotations.
-Require Import V.Lib.PyStr V.Dsl.Model V.Dsl.Proofs V.Dsl.Spec V.Dsl.Refine V.Dsl.Load.
+Require Import V.Lib.PyStr V.Dsl.Model V.Dsl.Proofs V.Dsl.Spec V.Dsl.Refine V.Dsl.Load V.Dsl.Outputs.
 Open Scope list_scope.
 
 (* the (stage, name) pairs given to ANY list of component scopes are pairwise distinct *)
@@ -477,3 +477,55 @@ Proof.
     vm_compute. repeat split; auto.
   - vm_compute. repeat split; try reflexivity. eexists; reflexivity.
 Qed.
+
+(* ---------------------------------------------------------------- KEY OUTPUTS (entrypoint.output[].data-in; Outputs.v)
+   compile_out = namespace_to_flowir on a namespace that declares key outputs, lightweight_out = lightweight_validate *)
+(* every compiled key output points to a COMPONENT instance: the one with the longest location that prefixes the
+   data-in (never a workflow instance), rendered with that instance's (stage, name) and the rest of the path *)
+Theorem C06_output_producer : forall N ov outs cis os n p m,
+  compile_out N ov outs = Ok (cis, os) -> In (n, (p, m)) outs ->
+  exists ci, In ci cis /\ p = ci_loc ci ++ skipn (length (ci_loc ci)) p /\
+    (forall ci', In ci' cis -> prefix_of (ci_loc ci') p = true -> length (ci_loc ci') <= length (ci_loc ci)) /\
+    In (n, render_ref (ci_id ci) (skipn (length (ci_loc ci)) p) m) os.
+Proof. exact output_producer. Qed.
+Print Assumptions C06_output_producer.
+
+(* a data-in that no component instance prefixes (misspelt step, workflow instance, not absolute): never compiled, an
+   error with locations, and - unless two outputs share a name - its own entrypoint.outputs[i] is listed *)
+Theorem C06_output_no_producer_rejected : forall N ov outs cis i o,
+  compile_ov N ov = Ok cis -> nth_error outs i = Some o ->
+  (forall ci, In ci cis -> prefix_of (ci_loc ci) (fst (snd o)) = false) ->
+  exists e, compile_out N ov outs = Err e /\ e <> [] /\ (dup_out_errs [] 0 outs = [] -> In (out_loc i) e).
+Proof. exact output_no_producer_rejected. Qed.
+Print Assumptions C06_output_no_producer_rejected.
+
+Theorem C06_output_dup_rejected : forall N ov outs cis i o,
+  compile_ov N ov = Ok cis -> nth_error outs i = Some o -> mem (fst o) (map fst (firstn i outs)) = true ->
+  exists e, compile_out N ov outs = Err e /\ In (out_loc i) e.
+Proof. exact output_dup_rejected. Qed.
+Print Assumptions C06_output_dup_rejected.
+
+Theorem C06_output_err_nonempty : forall N ov outs e, compile_out N ov outs = Err e -> e <> [].
+Proof. exact compile_out_err_nonempty. Qed.
+Print Assumptions C06_output_err_nonempty.
+
+(* without key outputs the extended compiler is the compiler *)
+Theorem C06_output_none : forall N ov,
+  compile_out N ov [] = match compile_ov N ov with Ok cis => Ok (cis, []) | Err e => Err e | Unsupp => Unsupp end.
+Proof. exact compile_out_none. Qed.
+Print Assumptions C06_output_none.
+
+Theorem C06_lightweight_output_err_nonempty : forall N ov outs e, lightweight_out N ov outs = LwErr e -> e <> [].
+Proof. exact lightweight_out_err_nonempty. Qed.
+Print Assumptions C06_lightweight_output_err_nonempty.
+
+Example C06_output_example :
+  (match compile_out (Some ex_ns) None
+           [("k", (["entry-instance"; "producer"; "producer"; "out.txt"], "ref"));
+            ("d", (["entry-instance"; "consumer"; "consumer"], "output"))]
+   with Ok (_, os) => os | _ => [] end) = [("k", "stage0.producer/out.txt:ref"); ("d", "stage0.consumer:output")]
+  /\ compile_out (Some ex_ns) None [("k", (["entry-instance"; "producer"; "out.txt"], "ref"))] = Err [out_loc 0]
+  /\ compile_out (Some ex_ns) None [("k", (["entry-instance"; "producer"; "producer"], "ref"));
+                                      ("k", (["entry-instance"; "consumer"; "consumer"], "ref"))] = Err [out_loc 1]
+  /\ lightweight_out (Some ex_ns) None [("k", (["entry-instance"; "nosuch"], "ref"))] = LwOk.
+Proof. vm_compute. repeat split; reflexivity. Qed.
